@@ -14,6 +14,9 @@ CTX_NAMES = [None, 'Root', 'A', 'B', 'I']
 EXC_CTX_NAMES = ['Boom', 'Exception', 'HTTPForbidden', 'HTTPNotFound', 'ValueError']
 PERM_TOKENS = ['view', 'edit', 'NPR', 'ZERO', 'EMPTY', 'NPRC']   # NPRC: a str EQUAL to the marker but not the constant object
 WRAPPERS = ['w1', 'w2']
+OFFERS = ['text/html', 'application/json']                # accept= of a view (content negotiation inside a MultiView)
+ACCEPT_HEADERS = ['application/json', 'text/html', 'application/json;q=0.9', 'text/html, application/json;q=0.5', '*/*',
+                  'text/plain', 'application/json, text/html;q=0.1']
 ROUTES = ['r1', 'r2']
 KINDS = ['fn', 'fn1', 'cls', 'cls2', 'attr', 'json']
 BUILTIN_TAG = 4500            # the default exception-response view registered by Configurator.__init__
@@ -486,6 +489,8 @@ class World:
             else:
                 kw[n] = val
         if k == 'view':
+            if s.get('accept'):
+                kw['accept'] = s['accept']
             if s['perm'] is not None:
                 kw['permission'] = P['perm_obj'][s['perm']]
             elif s.get('xnone'):
@@ -526,6 +531,8 @@ class World:
         if r.get('csrf'):
             rq.headers['Cookie'] = 'csrf_token=tok'
             rq.headers['X-CSRF-Token'] = 'tok'
+        if r.get('accept'):
+            rq.headers['Accept'] = r['accept']
         env = rq.environ
         env['c05.log'], env['c05.truth'], env['c05.world'] = log, list(r['truth']), self
         got = {}
@@ -558,6 +565,8 @@ class World:
         if r.get('csrf'):
             rq.headers['Cookie'] = 'csrf_token=tok'
             rq.headers['X-CSRF-Token'] = 'tok'
+        if r.get('accept'):
+            rq.headers['Accept'] = r['accept']
         rq.environ['c05.log'], rq.environ['c05.truth'], rq.environ['c05.world'] = log, list(r['truth']), self
         rq.registry = self.cfg.registry
         _CUR['env'] = rq.environ
@@ -591,7 +600,15 @@ class World:
         context = P['resources'][res]
         excs = {'forbidden': P['HTTPForbidden'](), 'notfound': P['HTTPNotFound'](), 'pme': P['PredicateMismatch'](''),
                 'valueerror': ValueError(), 'boom': P['Boom'](), 'csrf': P['BadCSRFToken']()}
-        return {'req_sro': [self.iid(i) for i in riface.__sro__],
+        rq = P['Request'].blank('/')
+        if r.get('accept'):
+            rq.headers['Accept'] = r['accept']
+        accq = []
+        for o in OFFERS:                       # (oracle, WebOb) quality of each offer under this request's Accept header
+            got = rq.accept.acceptable_offers([o])
+            if got:
+                accq.append([o, int(round(got[0][1] * 1000))])
+        return {'accq': accq, 'req_sro': [self.iid(i) for i in riface.__sro__],
                 'comb_sro': [self.iid(i) for i in riface.combined.__sro__],
                 'wrap_sro': list(self.wrap_sro),
                 'ctx_sro': [self.iid(i) for i in P['providedBy'](context).__sro__],
